@@ -365,6 +365,8 @@ pub struct Job {
     pub shard: u32,
     pub nshards: u32,
     pub shrink_iters: u32,
+    /// Enum source only: true when the enumeration is a complete finite space
+    pub complete: bool,
 }
 
 pub struct Jobs {
@@ -405,6 +407,7 @@ impl Jobs {
                 shard: s,
                 nshards,
                 shrink_iters: self.shrink_iters,
+                complete: false,
             });
         }
     }
@@ -415,7 +418,18 @@ impl Jobs {
         en: impl Fn(&mut dyn FnMut(&Case) -> R) -> R + Send + Sync + 'static,
         body: Body,
     ) {
-        self.v.push(Job { rule, bits, cases: 0, source: Source::Enum(Box::new(en)), body, shard: 0, nshards: 1, shrink_iters: self.shrink_iters });
+        self.v.push(Job { rule, bits, cases: 0, source: Source::Enum(Box::new(en)), body, shard: 0, nshards: 1, shrink_iters: self.shrink_iters, complete: true });
+    }
+    /// A fixed (deterministic, hand-built) list of cases that is NOT a complete
+    /// enumeration of a space.
+    pub fn fixed_list(
+        &mut self,
+        rule: &'static str,
+        bits: usize,
+        en: impl Fn(&mut dyn FnMut(&Case) -> R) -> R + Send + Sync + 'static,
+        body: Body,
+    ) {
+        self.v.push(Job { rule, bits, cases: 0, source: Source::Enum(Box::new(en)), body, shard: 0, nshards: 1, shrink_iters: self.shrink_iters, complete: false });
     }
 }
 
@@ -470,7 +484,7 @@ fn run_job(job: &Job, prop: &'static str, seed: u64, known: Arc<Vec<Known>>) -> 
     let mut exhaustive = false;
     match &job.source {
         Source::Enum(en) => {
-            exhaustive = true;
+            exhaustive = job.complete;
             let mut first: Option<(Case, Fail)> = None;
             let body = job.body;
             let r = en(&mut |case: &Case| {
@@ -745,8 +759,20 @@ pub fn main_with(spec: PropSpec, build: impl Fn(&mut Jobs, &Args), finish: impl 
                     if i >= njobs {
                         break;
                     }
-                    let r = run_job(&jobs_ref[i], prop_id, seed, known.clone());
-                    results.lock().unwrap()[i] = Some(r);
+                    let job = &jobs_ref[i];
+                    match catch_unwind(AssertUnwindSafe(|| run_job(job, prop_id, seed, known.clone()))) {
+                        Ok(r) => results.lock().unwrap()[i] = Some(r),
+                        Err(e) => {
+                            // a panic outside a rule body (generator, engine): harness bug, never a violation
+                            println!(
+                                "INCONCLUSIVE: harness error: panic outside rule body in job {}@{}: {}",
+                                job.rule,
+                                job.bits,
+                                panic_msg(&e)
+                            );
+                            std::process::exit(2);
+                        }
+                    }
                 })
                 .expect("spawn");
         }
